@@ -14,7 +14,12 @@ use std::path::{Path, PathBuf};
 use std::time::{Duration, Instant};
 
 pub const NSHARDS: usize = 16;
-pub const VERIF_ROOT: &str = "/verif";
+/// Root of the verification tree: `./check` exports VERIF_ROOT (its own directory), so that a snapshot
+/// of /verif elsewhere (vp run) works on its own target/work/evidence directories.
+pub fn verif_root() -> &'static str {
+    static ROOT: std::sync::OnceLock<String> = std::sync::OnceLock::new();
+    ROOT.get_or_init(|| std::env::var("VERIF_ROOT").ok().filter(|s| !s.is_empty()).unwrap_or_else(|| "/verif".to_owned()))
+}
 
 // ------------------------------------------------------------------------------------------
 // Basic types
@@ -316,7 +321,7 @@ pub fn known_findings() -> &'static KnownFindings {
     use std::sync::OnceLock;
     static KF: OnceLock<KnownFindings> = OnceLock::new();
     KF.get_or_init(|| {
-        let path = std::env::var("VCHECK_KNOWN_FINDINGS").unwrap_or_else(|_| format!("{VERIF_ROOT}/known_findings.json"));
+        let path = std::env::var("VCHECK_KNOWN_FINDINGS").unwrap_or_else(|_| format!("{root}/known_findings.json", root = verif_root()));
         match std::fs::read_to_string(&path) {
             Ok(text) => {
                 let v: Value = serde_json::from_str(&text).unwrap_or_else(|e| {
@@ -950,7 +955,7 @@ impl ShardCtx {
 // ------------------------------------------------------------------------------------------
 
 fn load_regressions(prop: &str) -> Vec<(PathBuf, ReplayInput)> {
-    let dir = PathBuf::from(format!("{VERIF_ROOT}/regressions/{prop}"));
+    let dir = PathBuf::from(format!("{root}/regressions/{prop}", root = verif_root()));
     let mut out = Vec::new();
     let Ok(rd) = std::fs::read_dir(&dir) else { return out };
     let mut paths: Vec<PathBuf> = rd.filter_map(|e| e.ok().map(|e| e.path())).collect();
@@ -1133,7 +1138,7 @@ pub fn worker_main(check: &'static dyn Check, tier: Tier, shard: usize, nshards:
 pub fn one_main(check: &'static dyn Check, family: String, kind: String, data: String, strict: bool) -> i32 {
     install_panic_hook();
     run_in_big_stack(move || {
-        let workdir = PathBuf::from(format!("{VERIF_ROOT}/work/one.{}", std::process::id()));
+        let workdir = PathBuf::from(format!("{root}/work/one.{}", std::process::id(), root = verif_root()));
         let _ = std::fs::create_dir_all(&workdir);
         let journal = Journal::create(&workdir.join("one.journal"));
         let mut ctx = ShardCtx {
@@ -1185,7 +1190,7 @@ pub fn render_main(check: &'static dyn Check, family: String, kind: String, data
     std::env::set_var("VCHECK_NO_COMPILE", "1");
     install_panic_hook();
     run_in_big_stack(move || {
-        let workdir = PathBuf::from(format!("{VERIF_ROOT}/work/render.{}", std::process::id()));
+        let workdir = PathBuf::from(format!("{root}/work/render.{}", std::process::id(), root = verif_root()));
         let _ = std::fs::create_dir_all(&workdir);
         let journal = Journal::create(&workdir.join("render.journal"));
         let mut ctx = ShardCtx {
@@ -1437,7 +1442,7 @@ pub fn supervise(check: &'static dyn Check, tier: Tier) -> i32 {
         .and_then(|s| s.trim().parse::<i64>().ok())
         .map(|v| v as u64)
         .unwrap_or(0);
-    let workdir = PathBuf::from(format!("{VERIF_ROOT}/work/{prop}.{}", std::process::id()));
+    let workdir = PathBuf::from(format!("{root}/work/{prop}.{}", std::process::id(), root = verif_root()));
     let _ = std::fs::remove_dir_all(&workdir);
     std::fs::create_dir_all(&workdir).expect("create workdir");
     let exe = std::env::current_exe().expect("current_exe");
@@ -1704,7 +1709,7 @@ pub fn supervise(check: &'static dyn Check, tier: Tier) -> i32 {
     // /repo itself) is never overwritten by a run against a deliberately broken tree.
     let ev_dir = std::env::var_os("VCHECK_EVIDENCE_DIR")
         .map(PathBuf::from)
-        .unwrap_or_else(|| PathBuf::from(format!("{VERIF_ROOT}/evidence")));
+        .unwrap_or_else(|| PathBuf::from(format!("{root}/evidence", root = verif_root())));
     let _ = std::fs::create_dir_all(&ev_dir);
     let ev_path = ev_dir.join(format!("{prop}.json"));
     std::fs::write(&ev_path, serde_json::to_string_pretty(&evidence).unwrap() + "\n").expect("write evidence");
@@ -1714,7 +1719,7 @@ pub fn supervise(check: &'static dyn Check, tier: Tier) -> i32 {
     }
     let mut exit = 0;
     if !real.is_empty() {
-        let rdir = PathBuf::from(format!("{VERIF_ROOT}/replays/{prop}"));
+        let rdir = PathBuf::from(format!("{root}/replays/{prop}", root = verif_root()));
         let _ = std::fs::create_dir_all(&rdir);
         for (i, v) in real.iter().enumerate() {
             let name = format!("{}-{}-{:016x}.json", v.family, sanitize(&v.class), hash64(&(&v.input.bytes_hex, v.input.index)));
